@@ -248,6 +248,29 @@ def guard_pairs():
         except Exception as e:  # noqa: BLE001
             return {"text": f"cond='level {o1} threshold', unless='level {o2} threshold'", "python": "a valid definition", "valuation": {},
                     "library": ("rejected/raised", f"{type(e).__name__}: {str(e)[:120]}"), "python_eval": ("ok", "accepted"), "kind": "guard-pair"}
+    # the same operator with different right operands: two different guards as well
+    for o1 in ops:
+        k += 1
+        ns = {"a": State(initial=True), "b": State(final=True)}
+        ns["go"] = ns["a"].to(ns["b"], cond=f"level {o1} low", unless=f"level {o1} high")
+        ns["level"], ns["low"], ns["high"] = 0, 10, 30
+        try:
+            cls = type(f"PairR{k}", (StateMachine,), ns)
+            for lv in (5, 10, 20, 30, 40):
+                sm = cls()
+                sm.level = lv
+                try:
+                    sm.go()
+                    fired = True
+                except TransitionNotAllowed:
+                    fired = False
+                want = ops[o1](lv, 10) and not ops[o1](lv, 30)
+                if fired != want:
+                    return {"text": f"cond='level {o1} low', unless='level {o1} high'", "python": f"(level {o1} 10) and not (level {o1} 30)",
+                            "valuation": {"level": lv}, "library": ("ok", fired), "python_eval": ("ok", want), "kind": "guard-pair"}
+        except Exception as e:  # noqa: BLE001
+            return {"text": f"cond='level {o1} low', unless='level {o1} high'", "python": "a valid definition", "valuation": {},
+                    "library": ("rejected/raised", f"{type(e).__name__}: {str(e)[:120]}"), "python_eval": ("ok", "accepted"), "kind": "guard-pair"}
     return None
 
 
